@@ -433,6 +433,16 @@ func (ex *Exec) builtin(st *State, fr *Frame, c *ssa.Call, name string, args []V
 		}
 		ex.emit(st, fr, "safety/panic", ex.L.instrDetail(c), "explicit panic is unreachable", False, nil, c.Pos())
 		return nil
+	case "ssa:wrapnilchk":
+		// wrapper of a value-receiver method called through a pointer: panics when the pointer is nil, else returns it
+		if p, ok := args[0].(VPtr); ok {
+			q := ex.checkNonNil(st, fr, p, c)
+			if st.dead {
+				return nil
+			}
+			return one(q)
+		}
+		return one(args[0])
 	case "print", "println":
 		return []Outcome{{st, nil}}
 	case "recover":
